@@ -107,9 +107,19 @@ def closure(targets, named):
 class RunScenario:
     """a repository + one `run` invocation, with everything the oracle needs to know"""
 
-    def __init__(self, rng, max_targets=5, with_argmaps=True, custom_dirs=True, undefined_pct=10, slash=False, force_mode=None, force_fou=None, dense=False):
+    def __init__(self, rng, max_targets=5, with_argmaps=True, custom_dirs=True, undefined_pct=10, slash=False, force_mode=None, force_fou=None, dense=False, nested_only=False):
         self.rng = rng
-        self.targets = gen_acyclic_targets(rng, 3 if dense else 1, max_targets, dense)
+        self.targets = gen_acyclic_targets(rng, 3 if (dense or nested_only) else 1, max_targets, dense)
+        if nested_only:
+            # the only dependencies are those of nesting
+            base = [t["path"] for t in self.targets]
+            self.targets = [{"path": p} for p in base]
+            for p in list(base)[:2]:
+                child = p + "/" + rng.pick(["api", "inner"])
+                if child not in base:
+                    self.targets.append({"path": child})
+                    base.append(child)
+            rng.shuffle(self.targets)
         if slash and rng.chance(1, 2):
             # a target path written with a trailing slash names the same directory
             t = rng.pick(self.targets)
@@ -128,6 +138,7 @@ class RunScenario:
         self.cmd_layout = {}   # target -> {"dir": abs or None, "defs": {cmd: relpath or ""}, "files": {cmd: filename or None}}
         self.argmap_dir = {}   # target -> repo-relative dir
         self.argmap_files = {}  # target -> {name: {cmd: [args]}}
+        self.missing_defs = set()
         dir_files = {}         # commands directory -> {cmd: filename or None}; may be shared by targets
         dir_decoys = {}        # commands directory -> [file names that define no command]
         dir_symlinks = {}      # commands directory -> {cmd: is the file a symbolic link}
@@ -161,6 +172,11 @@ class RunScenario:
                         lay["defs"][c] = ""            # definition without a path: discovered by stem
                     else:
                         lay["defs"][c] = "bin/" + p.replace("/", "_") + "/" + c + ".run"
+                        if files[c] is not None and rng.chance(1, 4):
+                            # the definition names a file that is not there (yet), while a file with
+                            # the command's stem sits in the commands directory: the definition wins,
+                            # nothing is started and the entry is `not_executable`
+                            self.missing_defs.add((c, p))
             if lay["defs"]:
                 t.setdefault("commands", {})["definitions"] = {c: ({"path": v} if v else {}) for c, v in lay["defs"].items()}
             self.cmd_layout[p] = lay
@@ -244,7 +260,8 @@ class RunScenario:
                     exe = d
                     if os.path.lexists(d):
                         os.remove(d)
-                    os.link(scen.HELPER, d)
+                    if (c, p) not in self.missing_defs:
+                        os.link(scen.HELPER, d)
                 self.expected_exe[(c, p)] = exe
             for name in lay.get("decoys", []):
                 dst = os.path.join(cdir, name)
@@ -282,5 +299,6 @@ class RunScenario:
         return {"targets": self.targets, "commands": self.commands, "sequences": self.sequences, "use_sequences": self.use_sequences,
                 "named": self.named, "deps": self.deps, "use_base": self.use_base, "argmaps": self.argmaps, "args": self.args,
                 "fail_on_undefined": self.fail_on_undefined, "argmap_files": self.argmap_files,
+                "definitions_naming_a_missing_file": sorted("%s|%s" % k for k in self.missing_defs),
                 "layout": {k: {"custom_dir": v["custom_dir"], "defs": v["defs"], "files": v["files"], "decoys": v.get("decoys", [])}
                            for k, v in self.cmd_layout.items()}}
